@@ -33,6 +33,8 @@ func checkC03(r *Report, p *Program) {
 	keyCompleteness(r, p, "R03.9", "informer.resourceKey")
 	cachesSyncedBeforeWorkers(r, p, "R03.10")
 	objectMapContracts(r, p, "R03.11")
+	// exactly the claimed objects are what the hook is shown (shared with C04)
+	claimKeepTable(r, p, "R03.12")
 	// which children are claimed (and so shown to the hook) is decided by makeSelector: generated ⇒ controller-uid only (shared with C04)
 	r04_4(r, p)
 }
